@@ -35,9 +35,9 @@ impl TimeoutAcq {
             old(tr).unguarded == 0,   // #no_unguarded_duty_at_await @LEDGER_TAGS@
             old(tr).held.len() == 0,   // #at_most_one_permit_per_call @SEM_TAGS@
         ensures
-            r matches Ok(Ok(p)) ==> *final(tr) == (Trace { ev: old(tr).ev.push(Ev::AcquireOk(p.id@)), held: old(tr).held.insert(p.id@), ..*old(tr) }) && !old(tr).held.contains(p.id@),
-            r matches Ok(Err(_)) ==> *final(tr) == (Trace { ev: old(tr).ev.push(Ev::AcquireClosed), ..*old(tr) }),
-            r is Err ==> *final(tr) == (Trace { ev: old(tr).ev.push(Ev::TimedOut(self.d)), ..*old(tr) }),
+            r matches Ok(Ok(p)) ==> *final(tr) == (Trace { ev: old(tr).ev.push(Ev::AcquireOk(p.id@)), held: old(tr).held.insert(p.id@), timer: Some(self.d), ..*old(tr) }) && !old(tr).held.contains(p.id@),
+            r matches Ok(Err(_)) ==> *final(tr) == (Trace { ev: old(tr).ev.push(Ev::AcquireClosed), timer: Some(self.d), ..*old(tr) }),
+            r is Err ==> *final(tr) == (Trace { ev: old(tr).ev.push(Ev::TimedOut(self.d)), timer: Some(self.d), ..*old(tr) }),
     { unimplemented!() }
 }
 /// explicit drop of a permit (R6). An implicit drop at scope end releases it as well (RAII, assumed).
